@@ -1279,9 +1279,12 @@ def run_go(exe, scripts, shards=6, test="TestVerifClientScript", timeout=600):
                 logs.append(log[-1500:])
     # a watchdog hit poisons the rest of its shard ("skipped"), a crash of the test binary loses the
     # rest of its shard: rerun those alone; a script that still gives nothing is marked as a crash
-    redo = [i for i, o in enumerate(res) if o is None or o.get("st") == "skipped"]
+    # ... and a script that overran its watchdog while its shard neighbours and the other shards were running is run again
+    # alone before it is judged: a hang repeats, a busy machine does not
+    redo = [i for i, o in enumerate(res) if o is None or o.get("st") in ("skipped", "watchdog")]
     for i in redo[:12]:
-        rc, lines, log = vlib.run_harness(exe, test, json.dumps(scripts[i]) + "\n", timeout=45, tag="_r%d" % i)
+        rc, lines, log = vlib.run_harness(exe, test, json.dumps(scripts[i]) + "\n",
+                                             timeout=max(75, int(scripts[i].get("watchdog", 0)) // 1000 + 45), tag="_r%d" % i)
         try:
             res[i] = json.loads(lines[0]) if lines else None
         except ValueError:
